@@ -36,8 +36,8 @@ SUBSCRIBE = {
 
 TIERS = {
     # exhaustive: all DAGs up to this many jobs x {ok,fail}^n x N in {1,2,3} x 2 modes x 2 pacings
-    "quick":    dict(exhaustive=4, random=2500, maxjobs=14, maxn=8, leakfam=400, perturb=30, seeds=1),
-    "thorough": dict(exhaustive=4, random=20000, maxjobs=60, maxn=64, leakfam=3000, perturb=30, seeds=3),
+    "quick":    dict(exhaustive=4, random=2500, maxjobs=14, maxn=8, leakfam=400, perturb=30, seeds=1, blockers=80, capacity=60),
+    "thorough": dict(exhaustive=4, random=20000, maxjobs=60, maxn=64, leakfam=3000, perturb=30, seeds=3, blockers=600, capacity=400),
 }
 
 
@@ -72,7 +72,8 @@ def run_set(tree, tier, seed, extra_args=None, tag=""):
         trace = os.path.join(d, name + ".trace")
         args = [os.path.join(d, "schedrun"), "-seed", str(seed), "-exhaustive", str(t["exhaustive"]),
                 "-random", str(t["random"]), "-maxjobs", str(t["maxjobs"]), "-maxn", str(t["maxn"]),
-                "-leakfam", str(t["leakfam"]), "-perturb", str(t["perturb"]), "-par", "12", "-out", trace]
+                "-leakfam", str(t["leakfam"]), "-perturb", str(t["perturb"]), "-blockers", str(t["blockers"]),
+                "-capacity", str(t["capacity"]), "-par", "12", "-out", trace]
         if extra_args:
             args = [os.path.join(d, "schedrun")] + extra_args + ["-out", trace]
         C.sh(args, timeout=3000)
@@ -102,6 +103,10 @@ def parse(trace, drvout):
                 nscen += 1
                 scen_lines = [line.rstrip("\n")]
                 scen[cur] = scen_lines
+            elif line.startswith("cap "):
+                cur = "cap" + line.split()[1]
+                nscen += 1
+                scen[cur] = [line.rstrip("\n")]
             elif line.startswith("job ") and cur is not None:
                 scen[cur].append(line.rstrip("\n"))
             elif line.startswith("O "):
@@ -227,7 +232,12 @@ def decide(pid, tier, theorems_status, extra_cov=None):
         # directed search: more seeds of the scenario families, looking for an oracle failure
         found = None
         for i in range(1, 4):
-            r = run_set(tree, "quick" if tier == "quick" else "thorough", seed + 100 * i, tag="-search")
+            # scenario families biased towards the diverging mechanism (leak-prone shapes for the dispatch gate)
+            extra = None
+            if pid == "C06":
+                extra = ["-seed", str(seed + 100 * i), "-exhaustive", "0", "-random", "500", "-leakfam", "6000", "-blockers", "0",
+                         "-capacity", "0", "-perturb", "40", "-par", "12"]
+            r = run_set(tree, "quick" if tier == "quick" else "thorough", seed + 100 * i, extra_args=extra, tag="-search")
             searched += r["scenarios"]
             if r["fails"].get(pid):
                 found = (r, r["fails"][pid][0])
